@@ -1251,6 +1251,22 @@ Definition lns_toks (st : lns) : list tok :=
                      flat_map (fun x => [TN (ls_local x); TN (ls_peer x); TN (ls_state x)]) (lt_sess t)) (ln_tuns st).
 
 (* ------------------------------------------------------------------ *)
+(* pkg/pppoe/cookie.go CookieManager.Validate: the AC-Cookie of a PADR comes from the subscriber.  HMAC-SHA256 is external:
+   [d] = HMAC(secret, mac ++ svlan ++ cvlan ++ cookie[32:]); [fresh] = the timestamp in cookie[32:36] is within the TTL. *)
+Definition cookie_validate (cookie d : bytes) (fresh : bool) : result bool :=
+  if negb (lenN cookie =? 36) then Ok false else
+  _ts <- (t <- slf 32 cookie;; u32at 0 t);;
+  if negb fresh then Ok false else
+  _tail <- slf 32 cookie;;
+  sig <- sl 0 32 cookie;;
+  Ok (if list_eq_dec N.eq_dec sig d then true else false).
+(* pkg/l2tp/challenge.go VerifyChallengeResponse: [d] = MD5(type ++ secret ++ challenge); 0 ok, 1 too short, 2 mismatch *)
+Definition verify_challenge (observed d : bytes) : result N :=
+  if lenN observed <? 16 then Ok 1 else
+  o <- sl 0 16 observed;;
+  Ok (if list_eq_dec N.eq_dec d o then 0 else 2).
+
+(* ------------------------------------------------------------------ *)
 (* Admissible outcomes.  The property lets the code reject or ignore malformed input; where an implementation may
    legitimately be stricter than /repo HEAD the model marks exactly those inputs "may ignore" and nothing wider:
    a PPP-IPv6 (0x0057) frame whose Information field is not an IPv6 datagram (shorter than the 40-byte fixed header, or
@@ -1462,6 +1478,8 @@ Definition run (v : variant) (entry : N) (na : list N) (ba : list bytes) : resul
   if entry =? 70 then Ok (pool_burst (arg 0 na) (arg 1 na)) else
   if entry =? 72 then Ok (rad_history b (skipn 1 ba)) else
   if entry =? 73 then Ok [tbool (rad_parse_ok b); TN (if rad_parse_ok b then rad_declared b else 0)] else
+  if entry =? 77 then rmap (fun x => [tbool x]) (cookie_validate b (barg 1 ba) (negb (arg 0 na =? 0))) else
+  if entry =? 78 then rmap (fun x => [TN (if x =? 0 then 0 else 1)]) (verify_challenge b (barg 1 ba)) else
   if entry =? 76 then rmap (fun l => flat_map (fun st => TN 255 :: lns_toks st) l) (lns_run (barg 0 ba) lns0 (skipn 1 ba)) else
   if entry =? 75 then rmap l2obs_toks (l2tp_dispatch (barg 1 ba) b) else
   if entry =? 74 then Ok (padr_trace (arg 0 na, 0) b) else
